@@ -32,6 +32,17 @@ IsNearestOf(b, e, a) ==
               \E cy \in NearestSet(a.sh, a.box[2], a.box[4], a.Q, a.dh, y) :
                  Pixel(e.dst, a.dw, nc, x, y) = Pixel(e.src, a.sw, nc, cx, cy)
 
+\* crop boxes narrower than the rational grid (one ulp wide, flush against an edge): a box that lies inside one source
+\* column b.cell[1] (row b.cell[2]; -1 = not confined, the axis spans what a.box says) confines every centre to it, because
+\* left <= left + (x + 1/2) w / n < left + w
+IsNearestCell(b, e, a) ==
+    LET nc == b.nc
+    IN  /\ Len(e.dst) = a.dw * a.dh * nc
+        /\ \A y \in 0 .. a.dh - 1 : \A x \in 0 .. a.dw - 1 :
+              \E cx \in (IF b.cell[1] >= 0 THEN {b.cell[1]} ELSE NearestSet(a.sw, a.box[1], a.box[3], a.Q, a.dw, x)) :
+              \E cy \in (IF b.cell[2] >= 0 THEN {b.cell[2]} ELSE NearestSet(a.sh, a.box[2], a.box[4], a.Q, a.dh, y)) :
+                 Pixel(e.dst, a.dw, nc, x, y) = Pixel(e.src, a.sw, nc, cx, cy)
+
 \* ---- C10: a uniform image stays uniform (b.v = the value of each component)
 IsUniform(b, e, tol) ==
     \A i \in 1 .. Len(e.dst) : Abs(e.dst[i] - b.v[((i - 1) % b.nc) + 1]) <= tol
@@ -91,6 +102,7 @@ ObsVerdict(b, e, a, grp, ref) ==
     ELSE IF Has(b, "untouched") /\ e.dst # e.dst0 THEN "destination-touched"
     ELSE IF Has(b, "copy") /\ ~IsCopyOf(b, e, a) THEN "not-a-copy"
     ELSE IF Has(b, "near") /\ ~IsNearestOf(b, e, a) THEN "not-nearest"
+    ELSE IF Has(b, "near_cell") /\ ~IsNearestCell(b, e, a) THEN "not-nearest"
     ELSE IF Has(b, "uniform") /\ ~IsUniform(b, e, 0) THEN "not-uniform"
     ELSE IF Has(b, "uniform_ulp1") /\ ~IsUniform(b, e, 1) THEN "not-uniform"
     ELSE IF Has(b, "uniform_mm") /\ ~UniformMM(b, e, 0) THEN "not-uniform"
